@@ -87,15 +87,21 @@ def run(chk, F):
     chk.guard("factor-exact", "eval_unit_name Of arm", lambda: of_target(chk, F))
 
 
+# "owned-helpers-only": only helpers all of whose callers are prettify (what `extract function` produces); pretty_unit and
+# fast_decompose are shared code with rules of their own
+PRETTIFY_KEEP = ("Option::<T>", "Iterator", "bool>::then", "owned-helpers-only")
+
+
 def prettify_data(chk, F):
-    fn = F.find(CORE, "types::number::Number::prettify")
+    # prettify with its private helpers put back (the special cases may live in one): their HIR is read with prettify's
+    fn = F.find(CORE, "types::number::Number::prettify", inline=True, keep=PRETTIFY_KEEP)
     fk = "rink_core::types::number::Number::prettify"
-    h = F.hir_of(fn)
-    arrs = [a for a in hir_walk(h["body"]) if a.get("k") == "Array" and len(a["elems"]) >= 8]
+    hs = F.hirs_of(fn)
+    arrs = [a for x in hs for a in hir_walk(x["body"]) if a.get("k") == "Array" and len(a["elems"]) >= 8]
     if len(arrs) != 1:
         raise AnchorLost("prettify: prefix name array not found")
     prefixes = [e["lit"]["v"] for e in arrs[0]["elems"] if e.get("k") == "Lit"]
-    lits = sorted(set(x["lit"]["v"] for x in hir_walk(h["body"]) if x.get("k") == "Lit" and x["lit"].get("lit") == "str"))
+    lits = sorted(set(x["lit"]["v"] for hh in hs for x in hir_walk(hh["body"]) if x.get("k") == "Lit" and x["lit"].get("lit") == "str"))
     f = datafiles.folder()
     defs = datafiles.defs()
     longp = {d["name"]: d for d in defs if d["kind"] == "prefixL"}
@@ -128,7 +134,7 @@ def prettify_data(chk, F):
         chk.decide(ok, "prettify-data", "core/definitions.units", name, "core/definitions.units", "database agrees: " + name, "database disagrees with prettify's special case `%s` %s" % (name, detail))
     need = {"kg", "kilogram", "gram", "bit", "byte", "mega", "tonne"}
     chk.decide(need <= set(lits), "prettify-data", fk, "special-case-names", fn.where(), "special-case names present: %s" % sorted(need), "prettify no longer mentions %s" % sorted(need - set(lits)))
-    ints = sorted(set(x["lit"]["v"] for x in hir_walk(h["body"]) if x.get("k") == "Lit" and x["lit"].get("lit") == "int"))
+    ints = sorted(set(x["lit"]["v"] for hh in hs for x in hir_walk(hh["body"]) if x.get("k") == "Lit" and x["lit"].get("lit") == "int"))
     chk.decide(ints == [1, 8, 1000], "prettify-data", fk, "numeric-literals", fn.where(), "numeric literals in prettify are exactly 1, 8, 1000", "numeric literals in prettify are %s (expected 1, 8, 1000)" % ints)
 
 
@@ -151,7 +157,7 @@ def canon_exp(tr):
 
 
 def prettify_arith(chk, F):
-    fn = F.find(CORE, "types::number::Number::prettify")
+    fn = F.find(CORE, "types::number::Number::prettify", inline=True, keep=PRETTIFY_KEEP)
     fk = "rink_core::types::number::Number::prettify"
     seen = {}
     for bb, t in fn.calls():
